@@ -99,6 +99,11 @@ def gen_plan(seed, index, tier):
         n_boot = rng.choice([1, 2, 3, 5, 8, 13, 25, 25, 32])
         if rare:
             n_boot = rng.choice([2, 2, 3, 3, 4])
+    collide = None
+    if rng.random() < 0.02:
+        # integer seeds for which numpy's default_rng(seed).integers(0, 2**32-1, n_boot) contains a repeated value
+        # (found by search): two resamples then legitimately coincide - and nothing else may change
+        collide = rng.choice([[302385, 88], [479557, 116], [14336, 132]])
     plan = {
         "v": 1, "n": n, "nsf": nsf, "ncf": ncf, "feats": feats, "ypred": ypred, "varying": varying, "form": form,
         "metrics": metrics, "quantiles": qs, "n_boot": n_boot,
@@ -111,6 +116,9 @@ def gen_plan(seed, index, tier):
         # per-sample parameter (the row id again) handed to the metrics: must be resampled with its row
         "row_tag": rng.random() < 0.3,
     }
+    if collide:
+        plan["rs"], plan["n_boot"] = collide
+        plan["collide"] = True
     return plan
 
 
@@ -218,7 +226,7 @@ def execute(plan, ctx):
     if plan.get("fresh") and not plan.get("fresh_child"):
         child = copy.deepcopy(plan)
         child["fresh_child"] = True
-        r = kernel.run_plans_fresh(PROPERTY, [child], hashseed="4242")[0]
+        r = kernel.run_plans_fresh(PROPERTY, [child], hashseed="1")[0]
         ctx.fault("hashseed")
         if r.get("obs", {}).get("ci") != kernel.canon(c1):
             ctx.fail("C18.reproducible_fresh", "*_ci values differ in a fresh interpreter under another PYTHONHASHSEED")
@@ -345,6 +353,8 @@ def execute(plan, ctx):
                     ctx.fail("C18.wide_pair_width", f"wide quantile pair has no positive width: [{c_lo}, {c_hi}]")
                 elif not (c_lo - 1e-12 <= float(np.mean(v)) <= c_hi + 1e-12):
                     ctx.fail("C18.wide_pair_mean", f"resampling mean {np.mean(v)} is outside [{c_lo}, {c_hi}]")
+    if plan.get("collide"):
+        ctx.probe("colliding_resample_seeds")
     gsets = [frozenset(blk["groups"]) for blk in resamples]
     if len({len(g) for g in gsets}) == 1 and len(set(gsets)) > 1:
         ctx.probe("resamples_same_group_count_different_groups")
